@@ -35,6 +35,9 @@ def _diff(a, b) -> str:
 
 
 class C09(Oracle):
+    def end(self, ctx, snap):
+        return _check_old_copies(ctx)
+
     def step(self, ctx, i, op, pre, out, post, tag):
         v = []
         k = op["op"]
@@ -81,6 +84,12 @@ class C09(Oracle):
                 if ctx.notes.get("refused_since_restart"):
                     ctx.probe("restart_after_failed_call")
                 ctx.notes["refused_since_restart"] = 0
+            olds = getattr(ctx.sut, "old_seqs", None)
+            if olds and olds[-1] is not ctx.notes.get("last_old") and not pre.parametrized:
+                ctx.notes["last_old"] = olds[-1]  # (a switch to the same device returns the object itself)
+                keep = ctx.notes.setdefault("old_copies", [])
+                keep.append((k, i, olds[-1], pre.key()))
+                del keep[:-3]
             return v
         if not out.ok:
             ctx.notes["last_refused_step"] = i
@@ -93,6 +102,25 @@ class C09(Oracle):
         elif kind == "bad":
             ctx.stats[f"matrix/accepted-bad/{tag}"] += 1
         return v
+
+
+def _check_old_copies(ctx):
+    """The objects a restart left behind are unchanged by everything that was
+    done to their copies afterwards (copies share no state with the original)."""
+    from .. import observe
+
+    v = []
+    for k, i, old, key in ctx.notes.get("old_copies", ()):
+        try:
+            now = observe.snapshot(old)
+        except Exception as e:  # noqa: BLE001
+            v.append(("C09/copy-not-independent", f"the sequence left behind by {k} at step {i} can no longer be inspected: {type(e).__name__}: {str(e)[:100]}"))
+            continue
+        ctx.probe("old_copy_checked")
+        if now.key() != key:
+            what = [n for n, a, b in zip(("channels", "phase references", "flags", "call log", "parametrized"), now.key(), key) if a != b] if isinstance(key, tuple) else []
+            v.append(("C09/copy-not-independent", f"the sequence left behind by {k} at step {i} changed while its copy was being used: {what}"))
+    return v
 
 
 class Twin(Oracle):
